@@ -67,3 +67,6 @@ func vfBuilt(b *Builder) *FrameV1 {
 	return f
 }
 
+
+// VfSignedRange returns the bytes a signature covers.
+func (f *FrameV1) VfSignedRange() []byte { return f.data[:f.authIndex] }
